@@ -99,6 +99,11 @@ class Variable(FortranObj):
     def get_type_obj(self, obj_tree):
         if self.link_obj is not None:
             return self.link_obj.get_type_obj(obj_tree)
+        # Drop a cached type whose file has been re-parsed since (stale syntax tree)
+        if self.type_obj is not None:
+            type_file = self.type_obj.file_ast.file
+            if (type_file is not None) and (type_file.ast is not self.type_obj.file_ast):
+                self.type_obj = None
         if (self.type_obj is None) and (self.parent is not None):
             type_name = get_paren_substring(self.get_desc(no_link=True))
             if type_name is not None:
